@@ -37,6 +37,8 @@ class Path:
         self.counter = 0
         self.hints = []          # extra ground facts (lemma instances) valid on this path
         self.warn_log = []       # ghost: warnings issued
+        self.events = None       # ghost: list of the objects whose `emits` contracts were called, in order (lazily created)
+        self.events0 = None      # its value at the entry of the function under verification / of the call being applied
         self.yielded = None      # ghost list of yielded values (set by generator verification)
         self.notes = []
         self._solver = None
